@@ -97,6 +97,23 @@ enum Op {
     Pause,
 }
 
+/// Drops the wrapper, recording the thread and the sequence numbers around the drop.
+struct TimedDrop {
+    w: Option<Arc<SyncWrapper<Val>>>,
+    log: Arc<Log>,
+    dropper: Arc<Mutex<Option<ThreadId>>>,
+}
+impl Drop for TimedDrop {
+    fn drop(&mut self) {
+        *self.dropper.lock().unwrap() = Some(std::thread::current().id());
+        let sq = self.log.next();
+        self.log.push(Ev::DropBegin { seq: sq });
+        drop(self.w.take());
+        let sq = self.log.next();
+        self.log.push(Ev::DropEnd { seq: sq });
+    }
+}
+
 struct EndGuard {
     log: Arc<Log>,
     op: usize,
@@ -123,9 +140,10 @@ pub fn history(seed: u64, idx: u64) -> Case {
         })
         .collect();
     let release_before_drop = rng.chance(1, 3);
+    let drop_by_unwinding = rng.chance(1, 3);
     // the wrapper's own runtime (where it sends its blocking work); the tasks are always polled by tokio
     let runtime = if rng.chance(1, 3) { deadpool::Runtime::AsyncStd1 } else { deadpool::Runtime::Tokio1 };
-    let desc_script = format!("runtime={:?} max_blocking_threads={} ops={:?} release_gates_before_drop={}", runtime, mb, ops, release_before_drop);
+    let desc_script = format!("runtime={:?} max_blocking_threads={} ops={:?} release_gates_before_drop={} dropped_by_unwinding={}", runtime, mb, ops, release_before_drop, drop_by_unwinding);
     let log = Arc::new(Log::default());
     let mut viol: Vec<Violation> = Vec::new();
     let mut v = |oracle: &'static str, msg: String| viol.push(Violation { prop: "C14", oracle, msg });
@@ -305,12 +323,20 @@ pub fn history(seed: u64, idx: u64) -> Case {
             }
             let poisoned_now = w.is_mutex_poisoned();
             results.lock().unwrap().push(format!("final:poisoned={}", poisoned_now));
-            *dropper.lock().unwrap() = Some(std::thread::current().id());
-            let sq = log.next();
-            log.push(Ev::DropBegin { seq: sq });
-            drop(w); // SyncWrapper::drop runs here, on an async worker thread
-            let sq = log.next();
-            log.push(Ev::DropEnd { seq: sq });
+            // SyncWrapper::drop runs on an async worker thread: either in place, or while the task that owns
+            // the wrapper is unwinding from a panic
+            let td = TimedDrop { w: Some(w), log: log.clone(), dropper: dropper.clone() };
+            if drop_by_unwinding {
+                let l = log.clone();
+                let h = tokio::spawn(async move {
+                    let _td = td;
+                    l.note_async();
+                    std::panic::panic_any(InjectedPanic(99));
+                });
+                let _ = h.await;
+            } else {
+                drop(td);
+            }
             tokio::time::sleep(Duration::from_micros(300)).await;
             for g in &gates {
                 g.release();
